@@ -107,7 +107,8 @@ func c20Processes(c *lib.Ctx) {
 		c.Note("process form skipped: VERIF_WTF unset")
 		return
 	}
-	bases := []string{"git commit", "compress files", "list files", "gt cmmit", "unpack", "zzzzzzzzzz epos", "install package", "show folder", "files", "tar"}
+	bases := []string{"git commit", "compress files", "list files", "gt cmmit", "unpack", "zzzzzzzzzz epos", "install package", "show folder", "files", "tar",
+		"how to find the largest files in a directory", "find files without opening"}
 	vary := []func(string) string{
 		strings.ToUpper,
 		strings.Title,
@@ -115,6 +116,7 @@ func c20Processes(c *lib.Ctx) {
 		func(s string) string { return s + " \t" },
 		func(s string) string { return strings.ReplaceAll(s, " ", "    ") },
 		func(s string) string { return "\t" + strings.ToUpper(strings.ReplaceAll(s, " ", " \t ")) + "\n" },
+		func(s string) string { return "\u3000" + strings.ReplaceAll(s, " ", "\u00a0 ") + " \u2003" },
 		func(s string) string {
 			rs := []rune(s)
 			for i := range rs {
